@@ -4430,6 +4430,10 @@ def fold_sub(t):
     if t and t[0] == "bin" and t[1] == "+" and t[2][0] == "list" and t[3][0] == "list":
         return ("list", t[2][1] + t[3][1])  # [a] + [b] is [a, b]
     if t and t[0] == "call" and t[1] in (("builtin", "tuple"), ("builtin", "list")) and len(t) == 4 and len(t[2]) == 1 and not t[3] \
+            and t[2][0][0] == "call" and t[2][0][1] in (("builtin", "map"), ("builtin", "filter"), ("ext", "itertools.starmap")) and len(t[2][0][2]) == 2 \
+            and t[2][0][2][1] in (("list", ()), ("tuple", ())):
+        return (t[1][1], ())  # list(map(f, [])) / list(starmap(f, [])): nothing to map
+    if t and t[0] == "call" and t[1] in (("builtin", "tuple"), ("builtin", "list")) and len(t) == 4 and len(t[2]) == 1 and not t[3] \
             and t[2][0][0] in ("tuple", "list") and not any(x[0] == "star" for x in t[2][0][1]):
         return (t[1][1], t[2][0][1])  # tuple((a, b)) / list((a, b)) of an explicit display
     if t and t[0] == "call" and t[1] == ("builtin", "len") and len(t) == 4 and len(t[2]) == 1 and not t[3] \
